@@ -478,7 +478,8 @@ macro_rules! mul_div_widen {
                 const NBITS: u32 = <$Single>::NBITS;
                 let lhs2 = <$Double>::from(self) << frac_nbits;
                 let rhs2 = <$Double>::from(rhs);
-                let quot2 = lhs2 / rhs2;
+                // wrapping_div as the double-width minimum over -1 must wrap, not panic
+                let quot2 = lhs2.wrapping_div(rhs2);
                 let quot = quot2 as $Single;
                 let overflow = if_signed_unsigned! {
                     $Signedness,
